@@ -31,6 +31,14 @@ func genCase(t *rapid.T) Case {
 			sc.Steps = append(sc.Steps, world.Step{Op: "announce", P: st.P})
 		}
 	}
+	if rapid.IntRange(0, 5).Draw(t, "longsync") == 0 {
+		// a sync that outlives the idle-handler TTL, then more traffic: publish, hold, announce (parks), tick, announce
+		p := rapid.IntRange(0, k-1).Draw(t, "lsp")
+		q := rapid.IntRange(0, k-1).Draw(t, "lsq")
+		motif := []world.Step{{Op: "publish", P: p, N: 1}, {Op: "hold", P: p}, {Op: "announce", P: p}, {Op: "tick"}, {Op: "publish", P: q, N: 1}, {Op: "announce", P: q}}
+		at := rapid.IntRange(0, len(sc.Steps)).Draw(t, "lsat")
+		sc.Steps = append(sc.Steps[:at:at], append(motif, sc.Steps[at:]...)...)
+	}
 	// Close, 1..3 times, at a drawn point; then calls after (or racing with) it
 	at := rapid.IntRange(0, len(sc.Steps)).Draw(t, "closeat")
 	nclose := rapid.IntRange(1, 3).Draw(t, "nclose")
@@ -57,6 +65,7 @@ func genCase(t *rapid.T) Case {
 func runCase(t *testing.T) func(Case) pbt.Result {
 	return func(c Case) (res pbt.Result) {
 		var viol string
+		var lastExec *world.Exec
 		kinds := map[string]int{}
 		defer func() {
 			if p := recover(); p != nil {
@@ -70,6 +79,7 @@ func runCase(t *testing.T) func(Case) pbt.Result {
 			w := world.New()
 			defer w.Close()
 			e, err := world.NewExec(w, c.Script, c.Discovery, dagsync.SegmentDepthLimit(-1))
+			lastExec = e
 			if err != nil {
 				viol = "NewSubscriber: " + err.Error()
 				return
@@ -158,6 +168,14 @@ func runCase(t *testing.T) func(Case) pbt.Result {
 		})
 		if viol != "" && res.Fail == "" {
 			res.Fail = viol + "\nscript: " + render(c)
+		}
+		if e := lastExec; e != nil {
+			if e.Ticks > 0 {
+				kinds["idle-ttl-passed"]++
+			}
+			if e.TicksDuringSync > 0 {
+				kinds["idle-ttl-passed-during-sync"]++
+			}
 		}
 		var ks []string
 		for k := range kinds {
